@@ -203,6 +203,19 @@ func c10Open(bl, pl, sc int) {
 	nonce := c10Arr24(verifrt.Bytes(24))
 	key := c10Arr32(verifrt.Bytes(32))
 	box := verifrt.Bytes(bl)
+	genuine := bl >= Overhead && verifrt.Choose(0, 1) == 1
+	if genuine {
+		// put the genuine tag (same primitives: UFs under the engine, real natively) in front of
+		// the arbitrary ciphertext, so that the accepting path also exists in native replay
+		stream := make([]byte, 32)
+		k := key
+		salsa20.XORKeyStream(stream, stream, nonce[:], &k)
+		var polyKey [32]byte
+		copy(polyKey[:], stream)
+		var tag [16]byte
+		poly1305.Sum(&tag, box[16:], &polyKey)
+		copy(box[:16], tag[:])
+	}
 	b0 := append([]byte{}, box...)
 	out := c10Out(pl, sc)
 	prefix := append([]byte{}, out...)
@@ -212,6 +225,10 @@ func c10Open(bl, pl, sc int) {
 	verifrt.Assert(!p, "Open does not panic on non-overlapping buffers")
 	refM, refOK := c10RefOpen(b0, &nonce, &key)
 	verifrt.Assert(ok == refOK, "Open accepts iff the tag is Poly1305(first 32 stream bytes, ciphertext)")
+	if genuine {
+		verifrt.Assert(ok, "a box carrying the genuine tag is accepted (incl. the 16-byte box of the empty message)")
+		verifrt.Reach("open-genuine")
+	}
 	if bl < Overhead {
 		verifrt.Assert(!ok, "input shorter than the tag is rejected")
 	}
